@@ -11,6 +11,7 @@ from ..simdrv import Vars, run_sim, sym_env, CompiledModel, run_compiled
 from ..sym import SymMem, SymInt, to_bv
 from . import c04
 from . import c08 as _c08    # noqa: F401  (registers the MEM / ROM design families)
+from . import c15 as _c15    # noqa: F401  (registers the PROBE design family)
 
 PROP = 'C02'
 LEVEL = 'translation_validation'
@@ -80,6 +81,9 @@ def cases(tier, seed):
             out.append({'fam': 'FSNAMES', 'name': nm, 'role': role, 'K': 2, 'form': 'pre', 'sim': 'compiled', 'init': 'zero'})
     out.append({'fam': 'FSNAMES', 'name': 'lut', 'role': 'roms', 'K': 2, 'form': 'pre', 'sim': 'fast'})
     out.append({'fam': 'FSNAMES', 'name': 'lut', 'role': 'roms', 'K': 2, 'form': 'pre', 'sim': 'compiled', 'init': 'zero'})
+    for kind_ in ('plain', 'direct'):
+        out.append({'fam': 'PROBE', 'kind': kind_, 'K': 3, 'form': 'pre', 'sim': 'compiled', 'init': 'alt', 'track': 'named'})
+        out.append({'fam': 'PROBE', 'kind': kind_, 'K': 3, 'form': 'pre', 'sim': 'fast'})
     # initial-state rules under a non-zero default_value: explicit zeros (reset_value=0, a 0 in register_value_map) must win
     regd = [dict(c, reset=r) for c in designs.op_cases([1, 3, 65], ops='w+', dests=('reg',)) for r in (None, 0, 1)]
     regd += designs.seq_cases(widths=(3,)) + designs.expr_cases(6 if tier == 'quick' else 30, seed + 77, n=5, maxw=5, nreg=2)
@@ -330,8 +334,13 @@ def _run_case(case, ob, tier):
             sp = spec.run(block, K, v, reg_init=regs, mem_init={
                 mem.name: SymMem.from_dict(mems.get(mem.name, {}), 0, mem.addrwidth, mem.bitwidth) for mem in simdrv.mems_of(block).values()})
             assume = [z3.Not(d) for d in sp.double_write]
+            tracked = None
+            if case.get('track') == 'named':
+                # the caller also asks for the named registers: the compiled simulator reports those it can (probes) and drops
+                # the others; what it reports must be the wire's own value
+                tracked = sorted(block.wirevector_subset((pyrtl.Input, pyrtl.Output, pyrtl.Register)), key=lambda w: w.name)
             try:
-                cm = CompiledModel(block, regvals=regs, memvals=mems)
+                cm = CompiledModel(block, regvals=regs, memvals=mems, tracked=tracked)
             except pyrtl.PyrtlError as e:
                 # the same register_value_map / memory_value_map (keyed as Simulation documents) that Simulation accepts below
                 with sym_env([block]):
@@ -350,7 +359,7 @@ def _run_case(case, ob, tier):
             meminit = {mem.name: SymMem.from_dict(mems.get(mem.name, {}), 0, mem.addrwidth, mem.bitwidth)
                        for mem in simdrv.mems_of(block).values()}
             with sym_env([block]):
-                ra = run_sim(block, K, v, kind='sim', reg_init=regs, mem_init=meminit, track='io', assumptions=assume)
+                ra = run_sim(block, K, v, kind='sim', reg_init=regs, mem_init=meminit, track=tracked or 'io', assumptions=assume)
             compare(ob, block, ra, rb, assume + list(sym.UF_FACTS), v, site, K, all_wires=False, compiled=True)
     finally:
         sym.MUL['uf'] = False
@@ -454,7 +463,7 @@ def replay(cex):
     if case['sim'] == 'compiled':
         regs, mems = init_values(case, block)
         mv = dict(mv, regs=regs, mems={k: {str(a): x for a, x in d.items()} for k, d in mems.items()})
-    track = 'all' if case['sim'] == 'fast' else 'io'
+    track = 'all' if case['sim'] == 'fast' else ('named' if case.get('track') == 'named' else 'io')
     kw = dict(reg_init='sym', mem_init='sym', track=track)
     if case.get('dv'):
         mv = dict(mv, regs={r.name: 0 for r in block.wirevector_subset(pyrtl.Register)}, mems={})
